@@ -372,6 +372,12 @@ impl<W: Write + io::Seek> ZipWriter<W> {
     where
         S: Into<String>,
     {
+        let name = name.into();
+        // The name length is stored in a 16-bit field.
+        if name.len() > u16::MAX as usize {
+            return Err(ZipError::InvalidArchive("File name too long"));
+        }
+
         self.finish_file()?;
 
         let raw_values = raw_values.unwrap_or(ZipRawValues {
@@ -396,7 +402,7 @@ impl<W: Write + io::Seek> ZipWriter<W> {
                 crc32: raw_values.crc32,
                 compressed_size: raw_values.compressed_size,
                 uncompressed_size: raw_values.uncompressed_size,
-                file_name: name.into(),
+                file_name: name,
                 file_name_raw: Vec::new(), // Never used for saving
                 extra_field: Vec::new(),
                 file_comment: String::new(),
@@ -846,6 +852,10 @@ impl<W: Write + io::Seek> ZipWriter<W> {
     }
 
     fn finalize(&mut self) -> ZipResult<()> {
+        // The comment length is stored in a 16-bit field.
+        if self.comment.len() > u16::MAX as usize {
+            return Err(ZipError::InvalidArchive("Archive comment too long"));
+        }
         self.finish_file()?;
 
         {
@@ -1179,6 +1189,11 @@ fn write_central_directory_header<T: Write>(writer: &mut T, file: &ZipFileData) 
     let mut zip64_extra_field = [0; 28];
     let zip64_extra_field_length =
         write_central_zip64_extra_field(&mut zip64_extra_field.as_mut(), file)?;
+    if zip64_extra_field_length as usize + file.extra_field.len() > u16::MAX as usize {
+        return Err(ZipError::InvalidArchive(
+            "Extra data too long for the central directory",
+        ));
+    }
 
     // central file header signature
     writer.write_u32::<LittleEndian>(spec::CENTRAL_DIRECTORY_HEADER_SIGNATURE)?;
@@ -1235,7 +1250,8 @@ fn write_central_directory_header<T: Write>(writer: &mut T, file: &ZipFileData) 
 fn validate_extra_data(file: &ZipFileData) -> ZipResult<()> {
     let mut data = file.extra_field.as_slice();
 
-    if data.len() > spec::ZIP64_ENTRY_THR {
+    // The local header may carry 20 bytes of ZIP64 information before this data.
+    if data.len() + if file.large_file { 20 } else { 0 } > spec::ZIP64_ENTRY_THR {
         return Err(ZipError::Io(io::Error::new(
             io::ErrorKind::InvalidData,
             "Extra data exceeds extra field",
